@@ -103,8 +103,13 @@ class SimulationAlgorithm(BaseSimulationAlgorithm):
     def __init__(self, settings: AlgorithmSettings):
         super().__init__(settings)
         self.features = settings.parameters["features"]
-        self.visit_type = settings.parameters["visit_parameters"]["visit_type"]
-        self._set_param_study(settings.parameters["visit_parameters"])
+        visit_parameters = settings.parameters["visit_parameters"]
+        if not isinstance(visit_parameters, dict) or "visit_type" not in visit_parameters:
+            raise LeaspyAlgoInputError(
+                "`visit_parameters` must be a dictionary with a 'visit_type' key ('dataframe' or 'random')"
+            )
+        self.visit_type = visit_parameters["visit_type"]
+        self._set_param_study(visit_parameters)
         self._validate_algo_parameters()
 
     def _check_features(self):
@@ -169,6 +174,7 @@ class SimulationAlgorithm(BaseSimulationAlgorithm):
                 type_errors.append(
                     f"Parameter '{param}': Expected type {type_names}, given {type(value).__name__}"
                 )
+                continue
             if param == "patient_number" and value <= 0:
                 value_errors.append(
                     "Patient number (patient_number) need to be a positive integer"
@@ -184,7 +190,7 @@ class SimulationAlgorithm(BaseSimulationAlgorithm):
                     "Parameter 'min_spacing_between_visits': Expected type int or float, "
                     f"given {type(value).__name__}"
                 )
-            if value < 0:
+            elif value < 0:
                 value_errors.append(
                     "Parameter 'min_spacing_between_visits' cannot be negative"
                 )
@@ -310,30 +316,22 @@ class SimulationAlgorithm(BaseSimulationAlgorithm):
             This method updates the `param_study` attribute of the instance in-place.
         """
 
+        # Only copy what is there: presence, types and values are checked by `_validate_algo_parameters`
+        self.param_study = {}
         if self.visit_type == VisitType.DATAFRAME:
-            patient_number = dict_param["df_visits"].groupby("ID").size().shape[0]
-
-            self.param_study = {
-                "patient_number": patient_number,
-                "df_visits": dict_param["df_visits"],
-            }
+            if "df_visits" in dict_param:
+                df_visits = dict_param["df_visits"]
+                self.param_study["df_visits"] = df_visits
+                if isinstance(df_visits, pd.DataFrame) and "ID" in df_visits.columns:
+                    self.param_study["patient_number"] = df_visits["ID"].nunique()
 
         elif self.visit_type == VisitType.RANDOM:
+            names = [name for name, _ in self._PARAM_REQUIREMENTS["random"]]
+            # optional spacing param, if provided
+            names.append("min_spacing_between_visits")
             self.param_study = {
-                "patient_number": dict_param["patient_number"],
-                "first_visit_mean": dict_param["first_visit_mean"],
-                "first_visit_std": dict_param["first_visit_std"],
-                "time_follow_up_mean": dict_param["time_follow_up_mean"],
-                "time_follow_up_std": dict_param["time_follow_up_std"],
-                "distance_visit_mean": dict_param["distance_visit_mean"],
-                "distance_visit_std": dict_param["distance_visit_std"],
+                name: dict_param[name] for name in names if name in dict_param
             }
-
-            # Add optional spacing param if provided
-            if "min_spacing_between_visits" in dict_param:
-                self.param_study["min_spacing_between_visits"] = dict_param[
-                    "min_spacing_between_visits"
-                ]
 
     def _sample_individual_parameters_from_model_parameters(
         self, model: McmcSaemCompatibleModel
